@@ -116,6 +116,10 @@ def gen_stop_scenario(rnd):
     decorate(rnd, sc)
     if 'skew' in sc and sc['skew'][0] == 'n2' and rnd.random() < 0.5:
         sc['skew'][0] = 'n3'
+    # the instance that boots first is the Master: the property quantifies over the loss of a NON-Master during the
+    # ending phase
+    if 'skew' in sc and sc.get('lose') and sc['lose'][0] == sc['skew'][0]:
+        sc['lose'][0] = next(n for n in ('n2', 'n3', 'n1') if n != sc['skew'][0])
     return sc
 
 
